@@ -68,6 +68,9 @@ ASSUMPTIONS = [
     "all designs have len(problem.parameters) coordinates and every parameter has a 'tol' entry (worst case); tolerances are floats "
     "(or non-zero ints: an int tolerance 0 gives -1 * 0 = 0 instead of -0.0, which is visible only on a coordinate that is -0.0)",
     "gradient evaluator: batches are non-empty (an empty batch raises IndexError in run(); modelled, not covered by the theorems)",
+    "a design vector is a list of Python / numpy numbers (ints, floats, mixed) or a FLOAT ndarray; the model works on the values. An integer "
+    "ndarray is outside the domain: numpy truncates the displaced coordinate on assignment in the unchanged code as well (probed on every run, "
+    "coverage.input_distribution.integer_ndarray_probe; candidate finding, notes/C14.md); tuples are rejected by Individual.__init__",
     "the sum in the extra objective and the finite difference use the FIRST user objective only (costs[0]), as the code does",
 ]
 
